@@ -7,10 +7,22 @@
 import Drv.Base
 import Drv.Segment
 import Drv.Bundle
+import Drv.Meta
+import Drv.Equals
+import Drv.Convert
+import Drv.Load
+import Drv.Resource
+import Drv.Reader
+import Drv.Write
+import Drv.Json
+import Drv.Grid
+import Drv.Combine
+import Drv.PathRes
 open Lean
 
 def handlers : List (String → Json → Option (Except String Json)) :=
-  [Drv.handleSegment, Drv.handleBundle]
+  [Drv.handleSegment, Drv.handleBundle,
+   Drv.handleMeta, Drv.handleEquals, Drv.handleConvert, Drv.handleLoad, Drv.handleResource, Drv.handleReader, Drv.handleWrite, Drv.handleJson, Drv.handleGrid, Drv.handleCombine, Drv.handlePathRes]
 
 def dispatch (j : Json) : Except String Json := do
   let op ← (← j.getObjVal? "op").getStr?
